@@ -96,7 +96,7 @@ def run(ctx, pid):
         k = dict(constants=tla_consts(c), invariants=inv, properties=props, emit=True,
                  timeout=1500, heap='3g')
         if kind == 'walks':
-            k.update(simulate=4000 if thorough else 500, depth=40, seed=ctx.seed)
+            k.update(simulate=4000 if thorough else 500, depth=40, seed=ctx.seed, budget_ok=True)
         return recipe.tlc_only(label, 'Worker', **k)
 
     with ThreadPoolExecutor(max_workers=4) as ex:
